@@ -4,6 +4,10 @@ import json, os
 HERE = os.path.dirname(os.path.dirname(os.path.abspath(__file__)))
 
 CLAIMED = {
+ 'C04': ('argument-binding provenance of C identifiers, guard-chain queries for rejecting rows, sibling symmetry of Namespace.track/remove, sort-key rule',
+         'Decides only the structural clauses: every node built from a C symbol receives the symbol\'s identifier verbatim (incl. the typedef that promotes a tagged struct); underscore and foreign symbols are dropped; each precondition of method and constructor pairing has an unconditional rejecting row; prefix matches are ranked (current namespace, prefix length) and the last is taken; track/remove/float are inverses; moved-to is set once per compatibility copy.',
+         'NOT decided (not applicable): the prefix-splitting results themselves, to_underscores on arbitrary CamelCase, uniqueness of C identifiers for concrete headers, typedef/struct ordering effects beyond the promotion rule. Trusted: CPython ast.',
+         '§4 C04'),
  'C16': ('set-typed expression inference over all of giscanner + order-sensitivity lint of every iteration site, symbolic writer loop table, nondeterminism-source sweep, control-dependence rule at the cache call site',
          'Decides the structural necessary conditions for every run: no order-sensitive walk over a set in the modules that feed the writer (sorted/min/max wrappers, or bodies with only set updates and diagnostics; one reviewed exception); every emitting loop of GIRWriter iterates sorted(...) or a reviewed order-carrying list and the namespace is written aliases-first in sorted order; comma-joined attributes come from lists; no hash/id/random/time/unsorted listings; cache hit/miss controls only parse+store, included namespaces are registered in sorted order, cache freshness uses full-resolution mtimes; the first compound seen for a C tag stays in the tag namespace.',
          'NOT decided (not applicable): that permuting comment blocks, source files or declarations yields the same model (behavioural; duplicate comment blocks for one identifier are last-wins by documented design). Trusted: CPython ast.',
